@@ -19,6 +19,8 @@ func main() {
 	seed := flag.Int64("seed", 1, "seed")
 	conc := flag.Int("conc", 4, "concretisations per vector")
 	framed := flag.Bool("framed", true, "also deliver framed through the syslog ingester")
+	fifoDir := flag.String("fifodir", "", "if set: also deliver through a real FIFO created in this directory")
+	fifoEvery := flag.Int("fifoevery", 1, "deliver every n-th record through the FIFO")
 	flag.Parse()
 
 	fi, err := os.Open(*in)
@@ -37,7 +39,9 @@ func main() {
 	sc := bufio.NewScanner(fi)
 	sc.Buffer(make([]byte, 1<<20), 1<<26)
 	r := rand.New(rand.NewSource(*seed))
-	n, nev, nfr := 0, 0, 0
+	n, nev, nfr, nfifo := 0, 0, 0, 0
+	var sess *sshdvec.FifoSession
+	nrec := 0
 	forms := map[string]int{}
 	for sc.Scan() {
 		var v sshdvec.Vector
@@ -50,7 +54,15 @@ func main() {
 			c = 2
 		}
 		for k := 0; k < c; k++ {
-			rec := sshdvec.Run(&v, r, n, k, *framed)
+			var fp **sshdvec.FifoSession
+			nrec++
+			if *fifoDir != "" && nrec%*fifoEvery == 0 {
+				fp = &sess
+			}
+			rec := sshdvec.Run(&v, r, n, k, *framed, fp, *fifoDir)
+			if rec.Fifo != nil {
+				nfifo++
+			}
 			if err := enc.Encode(rec); err != nil {
 				fmt.Fprintln(os.Stderr, err)
 				os.Exit(2)
@@ -67,6 +79,9 @@ func main() {
 	}
 	bw.Flush()
 	fo.Close()
-	st, _ := json.Marshal(map[string]any{"vectors": n, "events": nev, "framed": nfr, "emitting": forms})
+	if sess != nil {
+		sess.Close()
+	}
+	st, _ := json.Marshal(map[string]any{"vectors": n, "events": nev, "framed": nfr, "fifo": nfifo, "emitting": forms})
 	fmt.Println(string(st))
 }
